@@ -4,14 +4,18 @@ CHECK = {
     "gen": [{"pkg": "extract_c04", "out": "lean/ClusterVerif/Gen/C04.lean"}],
     "lean_sources": ["ClusterVerif/Model/C04Source.lean", "ClusterVerif/Gen/C04.lean", "ClusterVerif/Model/Pin.lean", "ClusterVerif/Model/C04.lean", "ClusterVerif/Spec/C04.lean",
                      "ClusterVerif/Model/C03.lean", "ClusterVerif/Spec/C03.lean", "ClusterVerif/Lemmas/C04.lean",
-                     "ClusterVerif/Model/C04Faults.lean", "ClusterVerif/Spec/C04Conc.lean", "ClusterVerif/Lemmas/C04Faults.lean"],
+                     "ClusterVerif/Model/C04Faults.lean", "ClusterVerif/Spec/C04Conc.lean", "ClusterVerif/Lemmas/C04Faults.lean",
+                     "ClusterVerif/Model/C04Rpc.lean", "ClusterVerif/Lemmas/C04Rpc.lean"],
     "rule": "histories of 4-25 Pin/PinPath/PinUpdate/Unpin/UnpinPath/rpc-pin calls over 12 CIDs (6 data, a sharded group), options drawn or derived "
             "from the stored pin with one field changed/added/removed, 5 default-factor settings, follower on/off, preloaded pinsets; every call is one case "
             "with its explicit pre-state; a trailing !k makes the k-th consensus call of the API call fail; paths to meta / cluster-DAG / shard pins and unresolved paths; "
             "cluster-DAG blocks complete / listing an absent shard / empty / unreachable; suite conc: two calls on one cid interleaved between read and consensus call (write order x stale/fresh read); "
+            "round 8: ~30% of the calls enter through the real ClusterRPCAPI (in-process gorpc client of newRPCServer): rpc.pin (plain PinWithOpts pins as REST/proxy/ctl send them, and the adders' typed pins), "
+            "rpc.unpin with a decorated pin object, rpc.pinpath / rpc.unpinpath with options, rpc.pinget; 8 default-factor settings incl. max above the peer count; "
             "non-trivial = every case (each call is constrained by the generic clauses); distinct by case line",
     "trusted_base": ["FakeConsensus = real dsstate over an in-memory datastore applying LogPin/LogUnpin directly",
                      "table-driven IPFS connector for Resolve/BlockGet; metrics.Store monitor; verif_export.go (VerifNewCluster, VerifPin)",
+                     "gorpc in-process call path (destination \"\": no serialisation, no authorisation) in front of the real ClusterRPCAPI; extract_c04's go/ast reader of rpc_api.go (fail-closed: unknown shape = table entry '?')",
                      "FaultConsensus: a failing LogPin/LogUnpin is not applied (fail-then-commit is not modelled); the gate interleaves at the granularity read-phase / consensus calls"],
     "assumptions": ["the empty metadata key is not a real option (never serialised in requests)",
                     "user allocations are transient (never stored), so a re-pin that carries them is not 'identical'"],
@@ -24,8 +28,11 @@ META = {
             "and by evaluating the Lean property clauses on the implementation's own outputs. "
             "Round 7: path operations proved equal to the cid operations on the resolved cid; consensus faults at every call position (stepF): every single-call operation is proved all-or-nothing, "
             "the sharded Unpin is characterised at every fault position (sharded_unpin_fault_positions, unpin_retry_heals, unpin_fault_strands_meta) and the full all-or-nothing statement is refuted "
-            "(failed_call_is_noop_full_fails: known finding K41, replayed on the implementation); two overlapping calls as read/write phases under all six interleavings: last_writer_wins_wellformed.",
+            "(failed_call_is_noop_full_fails: known finding K41, replayed on the implementation); two overlapping calls as read/write phases under all six interleavings: last_writer_wins_wellformed."
+            " Round 8: the RPC layer of rpc_api.go (Pin, Unpin, PinPath, UnpinPath, PinGet, Pins) is regenerated from go/ast into a table (callee, argument expressions, returned value, error propagation) that the Lean model INTERPRETS; "
+            "rpc_layer_is_passthrough / rpc_step_holds / rpc_run_holds: every writing RPC call performs exactly the Cluster operation the request means (a plain data pin sent to Cluster.Pin is the user-facing Pin and is held to the option clauses; Unpin uses the cid only; PinPath hands on path and options) and satisfies every clause along any call sequence; "
+            "two wrong layers refuted with witnesses (options dropped by PinPath; Pin routed through the public Pin); the harness sends the same requests through the real ClusterRPCAPI.",
     "note": "Trusted: Lean kernel, hand-written model/spec, harness fakes (consensus = dsstate applying ops directly, table IPFS connector), verif_export.go. "
             "Allocation validity is delegated to C03.",
-    "technique": "Lean 4 theorem over a step model + regenerated source text of the anchored functions checked against the transcribed snapshot (rfl) + differential correspondence per API call with explicit pre-state",
+    "technique": "Lean 4 theorem over a step model + semantic go/ast translation of the RPC layer interpreted by the model + regenerated source text of the anchored functions checked against the transcribed snapshot (rfl) + differential correspondence per API call with explicit pre-state",
 }
